@@ -522,6 +522,14 @@ func (vc *VC) knownGlobal(base string) (Sym, bool) {
 					if _, isP := t.Underlying().(*types.Pointer); isP {
 						vc.emit(fmt.Sprintf("(assert (and (> %s 0) (< %s %s)))", c, c, vc.entry.alloc))
 					}
+					if sort == "Int" {
+						if v, okv := vc.eng.constGlobalInit(name); okv {
+							if strings.HasPrefix(v, "-") {
+								v = "(- " + v[1:] + ")"
+							}
+							vc.emit(fmt.Sprintf("(assert (= %s %s))", c, v))
+						}
+					}
 				}
 				return sv{c}, true
 			}
